@@ -24,11 +24,32 @@ class AccessShim:
 
 
 class RaceFS:
-    def __init__(self, coop, chunks=2):
+    def __init__(self, coop, chunks=2, readonly_dirs=(), virtual_dirs=()):
         self.coop = coop
         self.files = {}
         self.chunks = chunks
         self.log = []
+        # directories for which os.access(..., W_OK) answers False
+        self.readonly_dirs = set(_os.path.abspath(str(d)) for d in readonly_dirs)
+        # directories whose existence is part of the store (absent until someone creates them)
+        self.virtual_dirs = set(_os.path.abspath(str(d)) for d in virtual_dirs)
+        self.dirs = set()
+
+    def is_virtual_dir(self, path):
+        return _os.path.abspath(str(path)) in self.virtual_dirs
+
+    def dir_exists(self, path):
+        self.coop.point("is_dir")
+        return _os.path.abspath(str(path)) in self.dirs
+
+    def makedirs(self, path, exist_ok=False):
+        self.coop.point("makedirs")
+        p = _os.path.abspath(str(path))
+        if p in self.dirs:
+            if not exist_ok:
+                raise FileExistsError(17, "File exists", str(path))
+            return
+        self.dirs.add(p)
 
     def is_cache(self, path):
         s = str(path)
@@ -41,6 +62,12 @@ class RaceFS:
 
     def open(self, path, mode):
         name = str(path)
+        if "x" in mode:
+            self.coop.point("open-x")
+            if name in self.files:
+                raise FileExistsError(17, "File exists", name)
+            self.files[name] = b""
+            return _WFile(self, name)
         if "w" in mode:
             self.coop.point("open-w")
             self.files[name] = b""
@@ -119,7 +146,19 @@ def make_path_class(fs):
         def exists(self, **kw):
             if fs.is_cache(self):
                 return fs.exists(self)
+            if fs.is_virtual_dir(self):
+                return fs.dir_exists(self)
             return super().exists(**kw)
+
+        def is_dir(self, **kw):
+            if fs.is_virtual_dir(self):
+                return fs.dir_exists(self)
+            return super().is_dir(**kw)
+
+        def mkdir(self, mode=0o777, parents=False, exist_ok=False):
+            if fs.is_virtual_dir(self):
+                return fs.makedirs(self, exist_ok=exist_ok)
+            return super().mkdir(mode=mode, parents=parents, exist_ok=exist_ok)
 
         def open(self, mode="r", *a, **kw):
             if fs.is_cache(self):
@@ -199,9 +238,18 @@ class RaceOS:
         return self.fs.listdir(path)
 
     def access(self, path, mode, **kw):
+        if mode == _os.W_OK and _os.path.abspath(str(path)) in self.fs.readonly_dirs:
+            return False
         return True
 
-    def makedirs(self, *a, **kw):
+    def makedirs(self, path, mode=0o777, exist_ok=False):
+        if self.fs.is_virtual_dir(path):
+            return self.fs.makedirs(path, exist_ok=exist_ok)
+        return None
+
+    def mkdir(self, path, *a, **kw):
+        if self.fs.is_virtual_dir(path):
+            return self.fs.makedirs(path, exist_ok=False)
         return None
 
 
